@@ -164,8 +164,8 @@ def run(tier, work):
                 continue
             var, exp, got, si, raw = mm[0]
             key0 = classify(prog, si, var, exp, got) if d is not None else None
-            if key0 and key0 in v.known:
-                v.known_hit(key0)
+            if key0 and v.seen(key0):
+                v.again(key0)
                 continue
             lines, probes1 = render(prog, "")
             job = {"cfg": cfg, "files": {"t.rb": "\n".join(lines) + "\n"}, "args": ["t.rb"]}
